@@ -204,3 +204,7 @@ func init() {
 func init() {
 	claim("C20", "R1", "R2", "R3", "W1", "M1", "M2", "P1")
 }
+
+func init() {
+	claim("C15", "Q1", "Q2", "Q3", "Q4", "N5")
+}
